@@ -719,3 +719,90 @@ Proof.
   - destruct (fst b) as [l|rows]; [discriminate|]. rewrite map_map. cbn [snd]. apply map_snd_combine.
     cbn [preds] in Hal. rewrite map_length in Hal. exact Hal.
 Qed.
+
+(* ------------------------------------------------------------------------------------------ *)
+(* Confusion matrix and its normalisations                                                     *)
+(* ------------------------------------------------------------------------------------------ *)
+Lemma nrows_zmat m : nrows (zmat m) = map (map z2q) m.
+Proof. unfold nrows, zmat. cbn [narr]. rewrite map_map. apply map_ext. intros r. unfold zvec. apply nlist_nvec. Qed.
+Lemma cmp_z2q a n d : (z2q a ?= mkq n d)%Qc = (a * Zpos d ?= n).
+Proof.
+  unfold Qccompare, z2q, mkq. unfold Q2Qc, this. rewrite <- Qred_compare. unfold Qcompare. cbn [Qnum Qden]. rewrite Z.mul_1_r. reflexivity.
+Qed.
+Lemma qabs_z2q a : 0 <= a -> qabs (z2q a) = z2q a.
+Proof.
+  intros Ha. unfold qabs, qlt. change 0%Qc with (mkq 0 1). rewrite cmp_z2q. rewrite Z.mul_1_r.
+  destruct (a ?= 0) eqn:E; try reflexivity. change (a < 0) in E. exfalso. lia.
+Qed.
+(* F.normalize's max(norm, eps): eps only matters for an all-zero row / column *)
+Lemma qmax_eps r : 0 <= r -> qmax (z2q r) norm_eps = if r =? 0 then norm_eps else z2q r.
+Proof.
+  intros Hr. unfold qmax, qlt, norm_eps. rewrite cmp_z2q.
+  destruct (Z.eqb_spec r 0) as [->|E]; [reflexivity|]. destruct (r * 1000000000000 ?= 1) eqn:C; try reflexivity.
+  change (r * 1000000000000 < 1) in C. exfalso. lia.
+Qed.
+Lemma l1div_z v r : 0 <= v -> v <= r -> l1div (z2q v) (z2q r) = ratio0 v r.
+Proof.
+  intros Hv Hr. unfold l1div, ratio0. rewrite qmax_eps by lia. destruct (Z.eqb_spec r 0) as [E|E].
+  - assert (v = 0) by lia. subst v. f_equal; try (rewrite z2q_0; unfold Qcdiv; ring).
+  - reflexivity.
+Qed.
+Lemma sumZ_map_ext_le (f g : Z -> Z) l : (forall c, f c = g c) -> sumZ (map f l) = sumZ (map g l).
+Proof. intros H. f_equal. apply map_ext. exact H. Qed.
+Lemma sumZ_lin (k : Z) (f g : Z -> Z) l : sumZ (map (fun j => k * f j + g j) l) = k * sumZ (map f l) + sumZ (map g l).
+Proof. induction l as [|c l IH]; [cbn; lia|]. cbn [map]. rewrite !sumZ_cons, IH. lia. Qed.
+(* predictions are class indices: the cells of row i add up to the number of samples with target i *)
+Lemma row_sum n ps i : forallb (inrange n) (map fst ps) = true ->
+  sumZ (map (fun j => cm_cell ps i j) (classes n)) = cnt (fun py => snd py =? i) ps.
+Proof.
+  induction ps as [|[p y] ps IH]; intros H.
+  - cbn [map]. clear. induction (classes n) as [|c l IHl]; [reflexivity|]. cbn [map]. rewrite sumZ_cons, IHl. reflexivity.
+  - cbn [map forallb fst] in H. apply andb_prop in H as [Hp Hr]. rewrite cnt_cons, <- (IH Hr). cbn [snd].
+    transitivity (sumZ (map (fun j => b2z (y =? i) * b2z (p =? j) + cm_cell ps i j) (classes n))).
+    + apply sumZ_map_ext_le. intros j. unfold cm_cell. rewrite cnt_cons. cbn [fst snd]. destruct (y =? i), (p =? j); cbn; lia.
+    + rewrite sumZ_lin, (sum_onehot n p Hp), Z.mul_1_r. reflexivity.
+Qed.
+Lemma col_sum n ps j : forallb (inrange n) (map snd ps) = true ->
+  sumZ (map (fun i => cm_cell ps i j) (classes n)) = cnt (fun py => fst py =? j) ps.
+Proof.
+  induction ps as [|[p y] ps IH]; intros H.
+  - cbn [map]. clear. induction (classes n) as [|c l IHl]; [reflexivity|]. cbn [map]. rewrite sumZ_cons, IHl. reflexivity.
+  - cbn [map forallb snd] in H. apply andb_prop in H as [Hy Hr]. rewrite cnt_cons, <- (IH Hr). cbn [fst].
+    transitivity (sumZ (map (fun i => b2z (p =? j) * b2z (y =? i) + cm_cell ps i j) (classes n))).
+    + apply sumZ_map_ext_le. intros i. unfold cm_cell. rewrite cnt_cons. cbn [fst snd]. destruct (y =? i), (p =? j); cbn; lia.
+    + rewrite sumZ_lin, (sum_onehot n y Hy), Z.mul_1_r. reflexivity.
+Qed.
+Lemma cell_nonneg ps i j : 0 <= cm_cell ps i j. Proof. apply cnt_nonneg. Qed.
+Lemma cell_le_row ps i j : cm_cell ps i j <= cnt (fun py => snd py =? i) ps.
+Proof.
+  unfold cm_cell. pose proof (cnt_and_le (fun py : Z * Z => fst py =? j) (fun py => snd py =? i) ps) as H.
+  rewrite (cnt_ext _ (fun py : Z * Z => (fst py =? j) && (snd py =? i))); [exact H|]. intros py. apply andb_comm.
+Qed.
+Lemma cell_le_col ps i j : cm_cell ps i j <= cnt (fun py => fst py =? j) ps.
+Proof. unfold cm_cell. apply (cnt_and_le (fun py : Z * Z => snd py =? i) (fun py => fst py =? j) ps). Qed.
+Lemma qsum_abs_z (f : Z -> Z) l : (forall c, 0 <= f c) -> qsum (map qabs (map (fun c => z2q (f c)) l)) = z2q (sumZ (map f l)).
+Proof.
+  intros H. rewrite map_map, <- qsum_z2q, map_map. f_equal. apply map_ext. intros c. apply qabs_z2q, H.
+Qed.
+
+Definition labels_in (n : nat) (ps : list (Z * Z)) : Prop :=
+  forallb (inrange n) (map fst ps) = true /\ forallb (inrange n) (map snd ps) = true.
+
+(* normalize = None / "all" / "true" (rows) on the matrix of pair counts *)
+Theorem cm_compute_spec_partial n nm ps : nm <> NPred -> labels_in n ps ->
+  cm_compute nm (map (map z2q) (coo_dense n ps)) = cm_textbook_ps n nm ps.
+Proof.
+  intros Hnm [Hp Hy]. rewrite coo_dense_spec. unfold cm_compute, cm_textbook_ps. rewrite !map_map.
+  destruct nm; [| | contradiction |].
+  - f_equal. apply map_ext. intros i. rewrite !map_map. reflexivity.
+  - f_equal.
+    assert (Htot : qsum (map (fun i => qsum (map z2q (map (fun j => cm_cell ps i j) (classes n)))) (classes n)) = z2q (lenZ ps)).
+    { rewrite (map_ext _ (fun i => z2q (cnt (fun py : Z * Z => snd py =? i) ps))) by (intros i; rewrite qsum_z2q, row_sum by exact Hp; reflexivity).
+      rewrite <- (map_map (fun i => cnt (fun py : Z * Z => snd py =? i) ps) z2q), qsum_z2q.
+      rewrite (sumZ_map_ext_le _ (support ps)) by (intros c; apply cnt_label). rewrite sum_support by exact Hy. reflexivity. }
+    rewrite Htot. apply map_ext. intros i. rewrite !map_map. apply map_ext. intros j. apply qdivx_z.
+    intros H0. pose proof (cell_le_row ps i j). pose proof (cell_nonneg ps i j). pose proof (cnt_le_len (fun py : Z * Z => snd py =? i) ps). lia.
+  - f_equal. apply map_ext. intros i. rewrite (map_map (fun j => cm_cell ps i j) z2q).
+    rewrite (qsum_abs_z (fun j => cm_cell ps i j)) by (intros c; apply cell_nonneg). rewrite row_sum by exact Hp. rewrite !map_map.
+    apply map_ext. intros j. apply l1div_z; [apply cell_nonneg|apply cell_le_row].
+Qed.
